@@ -277,7 +277,7 @@ func c07ServiceGrid(run *ev.Run) (cells int, carried int, classes map[string]int
 						}
 						dom := make([]byte, 32)
 						dom[0] = 7
-						epoch++
+						epoch += 2
 						ep := epoch
 						ops := []opRun{
 							{"Sign", func() (bool, string) {
@@ -293,6 +293,30 @@ func c07ServiceGrid(run *ev.Run) (cells int, carried int, classes map[string]int
 								return len(sig) > 0, resLetter(res)
 							}},
 						}
+						// The batch forms of the same operations (one entry: the account under test).
+						batchRes := func(res []core.Result) string {
+							if len(res) == 0 {
+								return "-"
+							}
+							return resLetter(res[0])
+						}
+						var names []string
+						var keys [][]byte
+						if byKey {
+							keys = [][]byte{key}
+						} else {
+							names = []string{name}
+						}
+						ops = append(ops,
+							opRun{"Sign", func() (bool, string) {
+								res, sigs := r.Signer.Multisign(r.Ctx, creds, names, keys, []*rules.SignData{{Domain: dom, Data: pat(1)}})
+								return len(sigs) > 0 && len(sigs[0]) > 0, batchRes(res)
+							}},
+							opRun{"Sign beacon attestation", func() (bool, string) {
+								res, sigs := r.Signer.SignBeaconAttestations(r.Ctx, creds, names, keys, []*rules.SignBeaconAttestationData{AttData(Ent{S: ep + 1, T: ep + 2, Root: 1})})
+								return len(sigs) > 0 && len(sigs[0]) > 0, batchRes(res)
+							}},
+						)
 						if !byKey {
 							ops = append(ops,
 								opRun{"Access account", func() (bool, string) {
